@@ -83,9 +83,10 @@ type OrLabelMatcher struct {
 
 // Process implements Processor.
 func (m *OrLabelMatcher) Process(ts otelstorage.Timestamp, line string, set LabelSet) (_ string, keep bool) {
-	line, keep = m.Left.Process(ts, line, set)
-	if keep {
-		return line, keep
+	// Do not pass the line returned by rejecting left operand to the right one:
+	// filters return an empty line when label is absent.
+	if newLine, keep := m.Left.Process(ts, line, set); keep {
+		return newLine, keep
 	}
 	return m.Right.Process(ts, line, set)
 }
